@@ -253,6 +253,11 @@ impl<H: Hasher> BatchMerkleProof<H> {
             return Err(MerkleTreeError::InvalidProof);
         }
 
+        // replace odd indexes, offset, and sort in ascending order; this also makes sure that
+        // the depth and all indexes are in range before they are used in index arithmetic
+        let original_indexes = indexes;
+        let index_map = super::map_indexes(indexes, self.depth as usize)?;
+
         let mut partial_tree_map = BTreeMap::new();
 
         for (&i, leaf) in indexes.iter().zip(leaves.iter()) {
@@ -262,9 +267,6 @@ impl<H: Hasher> BatchMerkleProof<H> {
         let mut buf = [H::Digest::default(); 2];
         let mut v = BTreeMap::new();
 
-        // replace odd indexes, offset, and sort in ascending order
-        let original_indexes = indexes;
-        let index_map = super::map_indexes(indexes, self.depth as usize)?;
         let indexes = super::normalize_indexes(indexes);
         if indexes.len() != self.nodes.len() {
             return Err(MerkleTreeError::InvalidProof);
